@@ -415,3 +415,28 @@ META["C14"] = dict(
     },
     assumptions=["SubB deliberately records twice (Base.__init__ via super): constructions are counted by distinct object identity"],
 )
+
+META["C15"] = dict(
+    title="A linked argument always equals the function of its sources",
+    level="exploration",
+    level_text="Invariant monitor on every successful parse: parsers with random subsets of links applied on parse (identity and "
+    "compute_fn, multi-source, group-valued source into a Dict target and into a function taking a dict, init_args of a class "
+    "argument incl. classes lacking the parameter, items of a list of classes incl. heterogeneous lists, a class init_arg as "
+    "source incl. None, required target) and links inside a subcommand's parser (with and without links in the parent); source "
+    "values arrive from argv, --cfg, object, config string, environment and defaults; a value for the target itself is supplied "
+    "through config/object/class spec in half of the cases. After each parse the target is recomputed from the final sources "
+    "with the generator's own copy of the function; dumps are inspected for the target and re-parsed.",
+    level_note="Trusted: the generator's copies of the compute functions and the YAML reader used to inspect dumps.",
+    shards=g(4, 16),
+    budget=g(40, 240),
+    technique="invariant monitor (target == f(final sources)) on results of every channel + dump inspection and re-parse",
+    rule="a case is (set of link features, channel, which target got a user value, keys given by config, options given on argv); "
+    "distinct by hash; non-trivial = the parser has at least one link and the parse succeeded.",
+    gates={
+        "mon.link_invariant": g(2000, 20000), "mon.dump_checked": g(500, 5000), "mon.target_option_rejected": g(300, 3000),
+        "st.target.plain": g(500, 5000), "st.target.init_arg": g(200, 2000), "st.target.list-items": g(200, 2000),
+        "st.target.plain-from-class-init-arg": g(150, 1500), "st.target_value_supplied": g(200, 2000), "st.subcommand_links": g(200, 2000),
+        "ev.env.return": g(50, 500), "ev.object.return": g(100, 1000), "ev.string.return": g(100, 1000), "ev.argv+cfg.return": g(100, 1000),
+    },
+    assumptions=["a link whose selected class does not define the target parameter is documented to be ignored"],
+)
